@@ -5,6 +5,11 @@ HERE = os.path.dirname(os.path.dirname(os.path.abspath(__file__)))
 props = [json.loads(l) for l in open(os.path.join(HERE, 'properties.jsonl'))]
 
 CLAIMED = {
+ 'C05': dict(
+  technique='abstract interpretation (partial evaluation of typepromote/typecommonreal/mkbinaryexpr over the static type-descriptor domain) compared with C11 6.3.1/6.5 oracle tables; static descriptor-table comparison with the LP64 psABIs',
+  text='Decides the arithmetic typing core exhaustively over the finite domain the property names (all arithmetic and enum types x bit-field widths x binary operators, plus pointer/null/struct operand classes): integer promotions, usual arithmetic conversions, per-operator result type / operand conversions / constraint diagnostics of mkbinaryexpr, and the scalar descriptor and per-target tables. Typing of arbitrarily nested derived types, unary/conditional operators, literals and compatibility judgements are NOT yet decided.',
+  note='Trusts clang 14 front end, lib/eai.py, the oracle functions o_promote/o_common/o_binary in props/c05.py (written from C11, not from type.c). Results are compared modulo the unobservable enum/compatible-integer tie.',
+  design='5/C05'),
  'C01': dict(
   technique='abstract interpretation (partial evaluation of the lowering functions over the static type/operator descriptor domain) + AST table extraction vs C11/QBE oracle tables',
   text='Decides structural clauses only: the instruction-selection, conversion, load/store, truthiness and bit-field shift tables that every compiled program is lowered through are extracted from the current source by an abstract interpreter and compared exhaustively (over the finite descriptor domain) with oracle tables written from C11 and the QBE manual; sibling switches are checked for exhaustiveness. Semantic equivalence of emitted IL for arbitrary programs is NOT decided.',
